@@ -47,7 +47,7 @@ Fixpoint ops_agree (ms : list (mobs trace)) (os : list (op * obs * alias)) : boo
   end.
 
 Definition race_ops (fa fb : list mwid) : list op :=
-  [OHandle 0 10 (map Some fa); OHandle 1 11 (map Some fb); OServe KRoute 0; OServe KRoute 1].
+  [OHandle 0 10 (map Some fa) []; OHandle 1 11 (map Some fb) []; OServe SExact 0; OServe SExact 1].
 
 (* the model's prediction for a data race between two concurrent NewRoute calls: both
    would have to append in place into the router's array *)
